@@ -664,4 +664,5 @@ func registerAll() {
 	gen("meta", genMeta)
 	gen("streams", genStreams)
 	gen("cron", genCron)
+	gen("scaling", genScaling)
 }
